@@ -285,7 +285,7 @@ def d1b(chk, prog):
     chk.clause("D1b", "subtract(): every row of the table minus the union of the other table's rows on its chromosome, in order (literal small tables; merge() summarised by its contract)")
     fi = prog.fn("skgenome.subtract.subtract")
     tb = Table(chk, "subtraction", "subtract on literal tables: overlapping / nested / unsorted / abutting subtrahends, chromosomes missing on either side", fi.loc(), fi.qn)
-    grid = [0, 4, 8, 12, 16]
+    grid = [0, 4, 8, 12, 16] if chk.tier != "thorough" else [0, 2, 4, 8, 12, 14, 16]
     ivs = [(a, b) for a in grid for b in grid if a < b]
     tables = [[("a", 0, 16)], [("a", 4, 12)], [("a", 0, 8), ("a", 8, 16)], [("a", 0, 8), ("b", 4, 12)], [("b", 0, 16), ("a", 4, 12)]]
     others = [[]] + [[("a",) + i] for i in ivs] + [[("c",) + i] for i in ivs[:3]] + [[("a",) + i, ("a",) + j] for i in ivs for j in ivs] + [[("a",) + i, ("c", 0, 16)] for i in ivs]
@@ -348,7 +348,7 @@ def d1b(chk, prog):
 def d3b(chk, prog):
     """soundness of the two fast paths on literal small tables: a table returned as it is has nothing left to merge / flatten"""
     chk.clause("D3b", "merge / flatten fast paths are sound: a table returned unchanged has no rows of one chromosome left to merge (literal small tables, rows in any order)")
-    grid = [0, 4, 8, 12]
+    grid = [0, 4, 8, 12] if chk.tier != "thorough" else [0, 3, 6, 9, 12]
     ivs = [(a, b) for a in grid for b in grid if a < b]
     rows1 = [(c, s, e) for c in ("a", "b") for s, e in ivs]
     tables = [list(t) for n in (1, 2, 3) for t in itertools.product(rows1, repeat=n)]
